@@ -52,7 +52,11 @@ func (vc *VC) havocEverything(why string, keepGhost bool) {
 		}
 		// pin the current versions of all ghost variables
 		for name, g := range vc.p.db.Ghosts {
-			t := vc.resolveType(g.Type, g.Pkg, g.Imports, true)
+			t := vc.tryResolveType(g.Type, g.Pkg, g.Imports)
+			if t == nil {
+				// the ghost's type lives in a package that is not part of this load
+				continue
+			}
 			k := "G." + name
 			if _, ok := vc.st.m[k]; !ok {
 				vc.st.m[k] = vc.get(k, vc.sortOf(t))
@@ -72,14 +76,52 @@ func (vc *VC) havocEverything(why string, keepGhost bool) {
 			}
 		}
 	}
+	if vc.checkFrame && vc.discovery == 0 {
+		for k := range vc.preserveSelf {
+			if !vc.keepHeaps[k] && !vc.immutableHeaps()[k] {
+				vc.oblige("frame", "preserves:"+k, "false", token.NoPos, "a callee may change "+k+" ("+why+"), which the contract promises to preserve")
+			}
+		}
+	}
+	for k := range vc.keepHeaps {
+		if _, ok := vc.st.m[k]; !ok {
+			if srt, known := vc.p.storageSort[k]; known {
+				vc.st.m[k] = vc.get(k, srt)
+			}
+		}
+	}
 	for k := range vc.st.m {
-		if heapLike(k) && !(keepGhost && strings.HasPrefix(k, "G.")) && !vc.immutable[k] {
+		if heapLike(k) && !(keepGhost && strings.HasPrefix(k, "G.")) && !vc.immutable[k] && !vc.keepHeaps[k] {
 			delete(vc.st.m, k)
 		}
 	}
 	vc.st.epoch = ep
 	vc.havocStorage("alloc", "Int")
 	vc.emit("(assert (>= %s %s))", vc.st.m["alloc"], oldAlloc)
+}
+
+// preservedHeaps evaluates the `preserves` entries of a contract: whole
+// storages that survive its `modifies heap`.
+func (vc *VC) preservedHeaps(spec *FuncSpec, env *Env) map[string]bool {
+	if len(spec.Preserves) == 0 {
+		return nil
+	}
+	out := map[string]bool{}
+	for _, cl := range spec.Preserves {
+		locs, err := vc.evalModEntry(cl.Expr, env)
+		if err != nil {
+			vc.errorf("%s:%d: preserves %s: %v", cl.File, cl.Line, cl.Src, err)
+			continue
+		}
+		for _, m := range locs {
+			if m.Idx != "" {
+				vc.errorf("%s:%d: preserves %s: only whole storages (T.f, T.*) can be preserved", cl.File, cl.Line, cl.Src)
+				continue
+			}
+			out[m.Heap] = true
+		}
+	}
+	return out
 }
 
 func calleeShort(name string) string {
@@ -95,6 +137,7 @@ func (vc *VC) execCall(fr *Frame, c *ssa.CallCommon, site ssa.Instruction, pos t
 	for _, a := range c.Args {
 		args = append(args, vc.valueOf(fr, a))
 	}
+	vc.atCallAsserts(fr, c, site, pos)
 	if c.IsInvoke() {
 		recv := vc.valueOf(fr, c.Value)
 		return vc.invoke(fr, recv, c.Value.Type(), c.Method, sig, args, pos)
@@ -129,6 +172,42 @@ func (vc *VC) execCall(fr *Frame, c *ssa.CallCommon, site ssa.Instruction, pos t
 	vc.used.Havocked["call of an unknown function value at "+vc.p.relPos(pos)] = true
 	vc.havocAll("call through a function value")
 	return vc.freshResult(sig, "dyncall")
+}
+
+// atCallAsserts checks the `atcall` assertions of the current function that
+// name the callee of c.
+func (vc *VC) atCallAsserts(fr *Frame, c *ssa.CallCommon, site ssa.Instruction, pos token.Pos) {
+	if fr.spec == nil || len(fr.spec.AtCalls) == 0 || site == nil || vc.discovery > 0 {
+		return
+	}
+	var name string
+	if c.IsInvoke() {
+		name = types.TypeString(c.Value.Type(), func(p *types.Package) string { return p.Name() }) + "." + c.Method.Name()
+	} else if callee := c.StaticCallee(); callee != nil {
+		name = callee.String()
+	} else {
+		return
+	}
+	for i, ac := range fr.spec.AtCalls {
+		if !(name == ac.Callee || strings.HasSuffix(name, "."+ac.Callee) || strings.HasSuffix(name, ")."+ac.Callee) || strings.HasSuffix(name, "/"+ac.Callee)) {
+			continue
+		}
+		names := map[string]*Val{}
+		vc.localNamesAt(fr, site, names)
+		env := vc.specEnv(fr, names)
+		for _, cj := range conjuncts(ac.Clause) {
+			t, ok := vc.evalBool(cj, env)
+			if !ok {
+				continue
+			}
+			if ac.Assume {
+				vc.assume(t)
+				vc.used.Assumes["assumed before the call of "+ac.Callee+" in "+fr.fn.String()+": "+cj.Src] = true
+				continue
+			}
+			vc.oblige("atcall", vc.clauseLabel("atcall:"+ac.Callee, cj, i), t, pos, "holds right before the call of "+ac.Callee+": "+cj.Src)
+		}
+	}
 }
 
 func (vc *VC) fieldCallName(v ssa.Value) string {
@@ -521,7 +600,9 @@ func (vc *VC) applyContractX(fr *Frame, spec *FuncSpec, name string, sig *types.
 		vc.havocAll("callee " + name + " declares modifies *")
 	} else {
 		if spec.ModHeap {
+			vc.keepHeaps = vc.preservedHeaps(spec, env)
 			vc.havocHeap("callee " + name + " declares modifies heap")
+			vc.keepHeaps = nil
 		}
 		locs := vc.evalModifies(spec, env)
 		for _, m := range locs {
@@ -1057,6 +1138,21 @@ func (vc *VC) builtin(fr *Frame, b *ssa.Builtin, c *ssa.CallCommon, args []*Val,
 			vc.set(dn, ds, fmt.Sprintf("(ite (= %s 0) %s (store %s %s ((as const (Array %s Bool)) false)))", args[0].T, d, d, args[0].T, vc.sortOf(mt.Key())))
 			return &Val{Ty: types.NewTuple()}
 		}
+		if st, ok := c.Args[0].Type().Underlying().(*types.Slice); ok {
+			// clear(s): every element of s becomes the zero value
+			et := st.Elem()
+			es := vc.sortOf(et)
+			hn, hs := vc.elemHeap(et)
+			heap := vc.get(hn, hs)
+			s := args[0]
+			arr := vc.fresh("clear_elems", "(Array Int "+es+")")
+			oldArr := fmt.Sprintf("(select %s (s_arr %s))", heap, s.T)
+			vc.emit("(assert (=> %s (forall ((j Int)) (=> (and (<= (s_off %s) j) (< j (+ (s_off %s) (s_len %s)))) (= (select %s j) %s)))))", vc.reach, s.T, s.T, s.T, arr, vc.zeroValue(et))
+			vc.emit("(assert (=> %s (forall ((j Int)) (=> (not (and (<= (s_off %s) j) (< j (+ (s_off %s) (s_len %s))))) (= (select %s j) (select %s j))))))", vc.reach, s.T, s.T, s.T, arr, oldArr)
+			vc.frameCheck(hn, fmt.Sprintf("(s_arr %s)", s.T), pos)
+			vc.set(hn, hs, fmt.Sprintf("(ite (= (s_len %s) 0) %s (store %s (s_arr %s) %s))", s.T, heap, heap, s.T, arr))
+			return &Val{Ty: types.NewTuple()}
+		}
 	}
 	vc.errorf("%s: unsupported builtin %s (outside subset)", vc.p.fset.Position(pos), b.Name())
 	return vc.freshResult(c.Signature(), b.Name())
@@ -1258,4 +1354,19 @@ func specUsesLocked(spec *FuncSpec) bool {
 		}
 	}
 	return spec.usesLocked > 0
+}
+
+// tryResolveType is resolveType without the failure: nil when a package the
+// type mentions is not loaded.
+func (vc *VC) tryResolveType(te *TypeExpr, pkg string, imports map[string]string) (t types.Type) {
+	defer func() {
+		if r := recover(); r != nil {
+			if _, ok := r.(evalError); ok {
+				t = nil
+				return
+			}
+			panic(r)
+		}
+	}()
+	return vc.resolveType(te, pkg, imports, true)
 }
